@@ -219,6 +219,11 @@ Definition fs_readlink (s : fstate) (p : str) : res str :=
 
 (** * Mutators.  Each returns the result and the new state. *)
 
+(** strip trailing separators *)
+Definition strip_trailing_seps (p : str) : str := rev (strip_trailing_sep_rev (rev p)).
+
+
+
 Definition sgid_bit : N := 1024.   (* 02000 *)
 Definition suid_bit : N := 2048.   (* 04000 *)
 Definition gexec_bit : N := 8.     (* 00010 *)
@@ -257,9 +262,6 @@ Definition fs_mkdir (s : fstate) (p : str) (perm : N) : res unit * fstate :=
       (Ok tt, add_entry s parent name (fun t g => Dir (mkMeta perm' 0 g t)))
   | WErr e => (Err e, s)
   end.
-
-(** strip trailing separators *)
-Definition strip_trailing_seps (p : str) : str := rev (strip_trailing_sep_rev (rev p)).
 
 (** [os.MkdirAll], following the Go source: Stat fast path, recurse on the
     parent, Mkdir, and on error accept an existing directory (Lstat). *)
@@ -300,7 +302,18 @@ Definition remove_entry (s : fstate) (k : key) : fstate :=
   mkFstate (touch_dir (base.delete k (st_fs s1)) (parent_key k) t) (st_clock s1).
 Arguments remove_entry : simpl never.
 
+(** unlink/rmdir of "link/" (trailing separators on a symlink): the last
+    component is not followed and is not a directory *)
+Definition slashed_link (s : fstate) (p : str) : bool :=
+  let p' := strip_trailing_seps p in
+  negb (str_eqb p' p) &&
+  match p' with
+  | [] => false
+  | _ => match resolve (st_fs s) p' false with WFound _ (Link _ _) => true | _ => false end
+  end.
+
 Definition fs_unlink (s : fstate) (p : str) : res unit * fstate :=
+  if slashed_link s p then (Err ENOTDIR, s) else
   match resolve (st_fs s) p false with
   | WFound k (Dir _) => (Err EISDIR, s)
   | WFound k _ => (Ok tt, remove_entry s k)
@@ -309,6 +322,7 @@ Definition fs_unlink (s : fstate) (p : str) : res unit * fstate :=
   end.
 
 Definition fs_rmdir (s : fstate) (p : str) : res unit * fstate :=
+  if slashed_link s p then (Err ENOTDIR, s) else
   match resolve (st_fs s) p false with
   | WFound k (Dir _) =>
       match k with
